@@ -420,3 +420,22 @@ def write_replay(check, ob, rec):
     path = os.path.join(d, re.sub(r'[^\w.()#,-]+', '_', ob.name)[:200] + '.replay.json')
     json.dump(rec, open(path, 'w'), indent=1, default=str)
     return path
+
+
+def run_jobs(check, jobs, on_harness_fail=None):
+    """Run IeeeJob / HarnessJob instances in parallel, add their obligations, adjudicate failures."""
+    from .core import pmap
+    obs = pmap(lambda j: j.run(), jobs)
+    for j, ob in zip(jobs, obs):
+        check.add(ob)
+        if ob.status == 'failed':
+            if isinstance(j, IeeeJob):
+                path, tail, harmless = j.adjudicate()
+                check.violations.append((ob, path, tail))
+            elif on_harness_fail is not None:
+                check.violations.append((ob,) + tuple(on_harness_fail(check, j, ob)))
+            else:
+                rec = {'property': check.pid, 'obligation': ob.name, 'function': ob.function, 'source': ob.loc,
+                       'verifier_output': ob.detail, 'confirmed': False, 'trace': {k: v for k, v in list((ob.cex or {}).items())[:60]}}
+                check.violations.append((ob, write_replay(check, ob, rec), 'no-failing-input-found'))
+    return obs
